@@ -52,6 +52,12 @@ Proof.
         reflexivity.
 Qed.
 
+Lemma nth_repeat_lt : forall (v : T) k t d, (t < k)%nat -> nth t (repeat v k) d = v.
+Proof.
+  induction k as [|k IH]; intros t d H; [lia|].
+  destruct t; simpl; auto. apply IH. lia.
+Qed.
+
 Lemma set_from_length : forall arr k v,
   length (set_from T arr k v) = length arr.
 Proof.
@@ -78,8 +84,7 @@ Proof.
   - destruct (Nat.ltb_spec t (length arr)) as [Hl|Hl].
     + rewrite app_nth2 by (rewrite firstn_length; lia).
       rewrite firstn_length.
-      apply nth_repeat_lt || idtac.
-      rewrite nth_repeat'. reflexivity. rewrite ?repeat_length. lia.
+      apply nth_repeat_lt. lia.
     + apply nth_overflow. rewrite app_length, firstn_length, repeat_length. lia.
 Qed.
 
@@ -134,8 +139,115 @@ Proof.
   - apply app_nth1; lia.
   - rewrite app_nth2 by lia.
     destruct (Nat.ltb_spec t (length l + k)).
-    + apply nth_repeat'. lia.
+    + apply nth_repeat_lt. lia.
     + apply nth_overflow. rewrite repeat_length. lia.
 Qed.
 
 End Arr.
+
+(** * The same laws with integer (ns) indices *)
+Ltac bool_to_prop :=
+  apply eq_true_iff_eq;
+  rewrite ?andb_true_iff, ?orb_true_iff, ?negb_true_iff,
+          ?Nat.leb_le, ?Nat.ltb_lt, ?Z.leb_le, ?Z.ltb_lt, ?Z.eqb_eq, ?Nat.eqb_eq.
+
+Section ArrZ.
+Variable T : Type.
+Variable zero : T.
+
+Lemma nthz_nth : forall (l : list T) t, (0 <= t)%Z ->
+  nthz T zero l t = nth (Z.to_nat t) l zero.
+Proof.
+  intros. unfold nthz. replace (t <? 0)%Z with false; auto.
+  symmetry. apply Z.ltb_ge. lia.
+Qed.
+
+Lemma nthz_overflow : forall (l : list T) t, (lenz T l <= t)%Z ->
+  nthz T zero l t = zero.
+Proof.
+  intros l t H. unfold lenz in H. unfold nthz.
+  destruct (t <? 0)%Z; auto. apply nth_overflow. lia.
+Qed.
+
+Lemma lenz_nonneg : forall (l : list T), (0 <= lenz T l)%Z.
+Proof. intros. unfold lenz. lia. Qed.
+
+Lemma sadd_lenz : forall add arr k xs, lenz T (sadd T add arr k xs) = lenz T arr.
+Proof. intros. unfold lenz. now rewrite sadd_length. Qed.
+
+Lemma sadd_nthz : forall add arr ti xs t,
+  (0 <= ti)%Z -> (0 <= t)%Z ->
+  nthz T zero (sadd T add arr (Z.to_nat ti) xs) t =
+  if ((ti <=? t) && (t <? ti + lenz T xs) && (t <? lenz T arr))%Z
+  then add (nthz T zero arr t) (nthz T zero xs (t - ti)) else nthz T zero arr t.
+Proof.
+  intros add arr ti xs t Hti Ht.
+  rewrite !nthz_nth by lia. rewrite sadd_nth.
+  replace ((Z.to_nat ti <=? Z.to_nat t)%nat && (Z.to_nat t <? Z.to_nat ti + length xs)%nat
+           && (Z.to_nat t <? length arr)%nat)
+    with ((ti <=? t) && (t <? ti + lenz T xs) && (t <? lenz T arr))%Z.
+  2:{ unfold lenz. bool_to_prop. lia. }
+  destruct ((ti <=? t) && (t <? ti + lenz T xs) && (t <? lenz T arr))%Z eqn:E; auto.
+  rewrite !andb_true_iff, !Z.leb_le, !Z.ltb_lt in E.
+  rewrite nthz_nth by lia. f_equal. f_equal. lia.
+Qed.
+
+Lemma set_from_lenz : forall arr k v, lenz T (set_from T arr k v) = lenz T arr.
+Proof. intros. unfold lenz. now rewrite set_from_length. Qed.
+
+Lemma set_from_nthz : forall arr k v t,
+  (0 <= k)%Z -> (0 <= t)%Z ->
+  nthz T zero (set_from T arr k v) t =
+  if (t <? k)%Z then nthz T zero arr t
+  else if (t <? lenz T arr)%Z then v else zero.
+Proof.
+  intros arr k v t Hk Ht. rewrite !nthz_nth by lia. rewrite set_from_nth by lia.
+  replace (Z.to_nat t <? Z.to_nat k)%nat with (t <? k)%Z by (bool_to_prop; lia).
+  replace (Z.to_nat t <? length arr)%nat with (t <? lenz T arr)%Z
+    by (unfold lenz; bool_to_prop; lia).
+  reflexivity.
+Qed.
+
+Lemma accr_lenz : forall f dst src skip cnt,
+  lenz T (accr T f dst src skip cnt) = lenz T dst.
+Proof. intros. unfold lenz. now rewrite accr_length. Qed.
+
+Lemma accr_nthz : forall f dst src lo n t,
+  length src = length dst -> (0 <= t)%Z ->
+  nthz T zero (accr T f dst src (Z.to_nat lo) (Z.to_nat n)) t =
+  if ((Z.max 0 lo <=? t) && (t <? Z.max 0 lo + Z.max 0 n) && (t <? lenz T dst))%Z
+  then f (nthz T zero dst t) (nthz T zero src t) else nthz T zero dst t.
+Proof.
+  intros f dst src lo n t Hl Ht. rewrite !nthz_nth by lia. rewrite accr_nth by exact Hl.
+  replace ((Z.to_nat lo <=? Z.to_nat t)%nat && (Z.to_nat t <? Z.to_nat lo + Z.to_nat n)%nat
+           && (Z.to_nat t <? length dst)%nat)
+    with ((Z.max 0 lo <=? t) && (t <? Z.max 0 lo + Z.max 0 n) && (t <? lenz T dst))%Z.
+  2:{ unfold lenz. bool_to_prop. lia. }
+  reflexivity.
+Qed.
+
+Lemma nthz_app_repeat : forall (l : list T) v k t, (0 <= t)%Z ->
+  nthz T zero (l ++ repeat v k) t =
+  if (t <? lenz T l)%Z then nthz T zero l t
+  else if (t <? lenz T l + Z.of_nat k)%Z then v else zero.
+Proof.
+  intros l v k t Ht. rewrite !nthz_nth by lia. rewrite nth_app_repeat.
+  replace (Z.to_nat t <? length l)%nat with (t <? lenz T l)%Z
+    by (unfold lenz; bool_to_prop; lia).
+  replace (Z.to_nat t <? length l + k)%nat with (t <? lenz T l + Z.of_nat k)%Z
+    by (unfold lenz; bool_to_prop; lia).
+  reflexivity.
+Qed.
+
+Lemma zeros_lenz : forall n, lenz T (zeros T zero n) = Z.max 0 n.
+Proof. intros. unfold lenz, zeros. rewrite repeat_length. lia. Qed.
+
+Lemma zeros_nthz : forall n t, nthz T zero (zeros T zero n) t = zero.
+Proof.
+  intros. unfold nthz, zeros. destruct (t <? 0)%Z; auto.
+  destruct (Nat.lt_ge_cases (Z.to_nat t) (Z.to_nat n)).
+  - apply nth_repeat_lt. lia.
+  - apply nth_overflow. rewrite repeat_length. lia.
+Qed.
+
+End ArrZ.
